@@ -178,5 +178,36 @@ StrictLRU ==
            /\ evict' - evict >= Cardinality(victims)
   ]_allvars
 
+(* ----------------- the methods as functions on a state record ------------------ *)
+(* Used where one step of a trace stands for many calls (LRU_Trace, run events): FDo(s, a) is the  *)
+(* state record after method a in state s.  FAgrees - checked exhaustively with the other         *)
+(* properties - says that it is the same transition as Do(a), for every method in every state.   *)
+FSt == [order |-> order, val |-> val, sz |-> sz, size |-> size, cap |-> cap, evict |-> evict, sized |-> sized]
+FHas(s, k) == \E i \in 1..Len(s.order) : s.order[i] = k
+FPut(s, a) ==
+  IF FHas(s, a.k)
+  THEN IF s.sized
+       THEN Trimmed(Front(s.order, a.k), Ext(s.val, a.k, a.v), Ext(s.sz, a.k, a.s),
+                    s.size + a.s - s.sz[a.k], s.cap)
+       ELSE [order |-> Front(s.order, a.k), val |-> Ext(s.val, a.k, a.v), sz |-> s.sz,
+             size |-> s.size, n |-> 0, removed |-> <<>>]
+  ELSE LET ch == IF s.sized THEN a.s ELSE 1
+       IN Trimmed(<<a.k>> \o s.order, Ext(s.val, a.k, a.v), Ext(s.sz, a.k, ch), s.size + ch, s.cap)
+FInst(s, t) == [s EXCEPT !.order = t.order, !.val = t.val, !.sz = t.sz, !.size = t.size,
+                         !.evict = s.evict + t.n]
+FDo(s, a) ==
+  CASE a.op \in {"set", "setx"} -> FInst(s, FPut(s, a))
+    [] a.op = "setnx" -> IF FHas(s, a.k) THEN [s EXCEPT !.order = Front(s.order, a.k)]
+                         ELSE FInst(s, FPut(s, a))
+    [] a.op = "get"   -> IF FHas(s, a.k) THEN [s EXCEPT !.order = Front(s.order, a.k)] ELSE s
+    [] a.op = "del"   -> IF FHas(s, a.k)
+                         THEN [s EXCEPT !.order = Without(s.order, a.k), !.val = Rem(s.val, a.k),
+                                        !.sz = Rem(s.sz, a.k), !.size = s.size - s.sz[a.k]]
+                         ELSE s
+    [] a.op = "clear" -> [s EXCEPT !.order = <<>>, !.val = <<>>, !.sz = <<>>, !.size = 0]
+    [] a.op = "setcap" -> FInst([s EXCEPT !.cap = a.c], Trimmed(s.order, s.val, s.sz, s.size, a.c))
+    [] OTHER -> s
+FAgrees == [][FSt' = FDo(FSt, last')]_allvars
+
 View == <<order, val, sz, size, cap, sized>>
 =============================================================================
